@@ -3,23 +3,28 @@
 import os, json, shutil, sys
 base='/verif/seeded'
 head=os.popen('git -C /repo rev-parse --short HEAD').read().strip()
+ROUND = os.environ.get('SEED_ROUND', '')      # e.g. '3': variants A,B are stored as C,D
+MAP = {'A': 'A', 'B': 'B'}
+if ROUND == '3':
+    MAP = {'A': 'C', 'B': 'D'}
 for p in sys.argv[1:]:
     notes=open('/tmp/wt/%s/seeded/NOTES.md'%p).read()
-    for v in 'AB':
+    for v0 in 'AB':
+        v = MAP[v0]
         ver=json.load(open('/verif/work/verify/%s-%s.json'%(p,v)))
         if not ver.get('confirmed'):
             print('skip unconfirmed',p,v); continue
         d=os.path.join(base,'%s-%s'%(p,v)); os.makedirs(d,exist_ok=True)
-        shutil.copy('/tmp/wt/%s/seeded/variant%s.diff'%(p,v), os.path.join(d,'patch.diff'))
-        shutil.copy('/tmp/wt/%s/seeded/demo%s.rs'%(p,v), os.path.join(d,'demo.rs'))
+        shutil.copy('/tmp/wt/%s/seeded/variant%s.diff'%(p,v0), os.path.join(d,'patch.diff'))
+        shutil.copy('/tmp/wt/%s/seeded/demo%s.rs'%(p,v0), os.path.join(d,'demo.rs'))
         ver.pop('worktree',None)
         if 'demo_with_change' in ver: ver['demo_with_change'].pop('tail',None)
         meta={'id':'%s-%s'%(p,v),'property':p,'source':'independent sub-agent given only the property text and a scratch worktree of /repo (HEAD %s)'%head,
-              'needs_to_manifest':'see %s-NOTES.md (variant %s)'%(p,v),
+              'needs_to_manifest':'see %s-NOTES%s.md (variant %s there)'%(p, ('-round'+ROUND) if ROUND else '', v0),
               'what_i_ran':['git apply patch.diff (in the scratch worktree)','cargo test --offline  (existing suite: 83 passed incl. 15 doctests, 0 failed)',
                             'cargo test --offline --test seeded_demo  (fails with the change)','git checkout -- src; cargo test --offline --test seeded_demo  (passes without it)'],
               'verification':ver}
         json.dump(meta,open(os.path.join(d,'meta.json'),'w'),indent=1)
-    open(os.path.join(base,'%s-NOTES.md'%p),'w').write(notes)
+    open(os.path.join(base,'%s-NOTES%s.md'%(p, ('-round'+ROUND) if ROUND else '')),'w').write(notes)
     os.system('git -C /repo worktree remove --force /tmp/wt/%s'%p)
     print('harvested',p)
